@@ -294,11 +294,11 @@ Proof.
 Qed.
 
 (* ---- histories ---- *)
-Lemma O_run_hop L T c ck p op w p' w' : HN T c p w -> hq L [] w -> (forall q, kp c (ck q)) -> (forall q, hk true (ck q)) ->
+Lemma O_run_hop_gen L c ck p op w p' w' : WorldSpec2.wf w -> w_cur w = c -> 0 <= c -> hq L [] w ->
+  (forall q, kp c (ck q)) -> (forall q, hk true (ck q)) ->
   run_hop ck p op w = Ret p' w' -> hq L [] w'.
 Proof.
-  intros HNn Hq Hkp Hkh E.
-  assert (W : WorldSpec2.wf w) by apply HNn. assert (C : w_cur w = c) by apply HNn. assert (Hpos : 0 <= c) by apply HNn.
+  intros W C Hpos Hq Hkp Hkh E.
   destruct op; cbn [run_hop] in E.
   - apply bind_inv in E as ([r p1] & w1 & E1 & E). apply ret_inv in E as [_ ->].
     exact (reproc_start_hq _ _ _ _ _ _ _ _ _ _ W ltac:(rewrite C; exact Hpos) Hq ltac:(rewrite C; exact Hkp) Hkh E1).
@@ -311,6 +311,9 @@ Proof.
   - apply bind_inv in E as (x & w1 & E1 & E). apply ret_inv in E as [_ ->]. exact (H_neutral _ _ _ _ _ _ (hk_reproc_kill false _) Hq E1).
   - apply bind_inv in E as ([r p1] & w1 & E1 & E). apply ret_inv in E as [_ ->]. exact (O_reproc_stop _ _ _ _ _ _ _ Hq E1).
 Qed.
+Lemma O_run_hop L T c ck p op w p' w' : HN T c p w -> hq L [] w -> (forall q, kp c (ck q)) -> (forall q, hk true (ck q)) ->
+  run_hop ck p op w = Ret p' w' -> hq L [] w'.
+Proof. intros HNn. apply O_run_hop_gen; apply HNn. Qed.
 Lemma O_run_hops L T c ck ops : forall p w p' w', HN T c p w -> hq L [] w -> (forall q, kp c (ck q)) -> (forall q, hk true (ck q)) ->
   run_hops ck p ops w = Ret p' w' -> HN T c p' w' /\ hq L [] w' /\ h_blk p' = h_blk p.
 Proof.
@@ -375,4 +378,36 @@ Proof.
   pose proof (O_reproc_destroy _ _ _ _ _ H2 ltac:(rewrite B2, Z.eqb_refl; apply orb_true_r) ltac:(rewrite B2; exact Hnz) E) as H3.
   intros id. rewrite (hq_end _ _ H3 id). rewrite B2. fold (L id).
   destruct (Z.eqb_spec id b) as [->|]; cbn [negb]; [rewrite Lb; reflexivity|]. rewrite orb_false_r, andb_true_r. reflexivity.
+Qed.
+
+(* ---- a failed start, all three ledgers at once ---- *)
+Theorem failed_start_leaves_nothing p argv o src ck w r p' w' :
+  WorldSpec2.wf w -> 0 <= w_cur w -> w_cur w = w_main w -> 0 < w_next_blk w ->
+  (forall id, w_next_blk w <= id -> heap_live id w = false) ->
+  (forall q, kp (w_cur w) (ck q)) -> (forall q, hk true (ck q)) -> fresh_handle p ->
+  reproc_start p argv o src ck w = Ret (r, p') w' -> r < 0 ->
+  pr_fds (curp w') = pr_fds (curp w) /\ (forall id, heap_live id w' = heap_live id w) /\ fresh_handle p' /\ h_blk p' = h_blk p.
+Proof.
+  intros W Hpos Hmain Hnb Hhw Hkp Hkh (F1 & F2 & F3 & F4 & F5 & F6 & F7 & F8) E Hr.
+  assert (H0 : fqn (tb w) [] (w_cur w) w) by (split; [apply fq_start, W|constructor]).
+  destruct (reproc_start_fq _ _ _ _ _ _ _ _ _ _ H0 Hpos Hnb Hkp F3 F4 F5 F6 F2 E)
+    as [(_ & [Hq _] & A1 & A2 & A3 & A4 & A5 & A6 & A7 & A8)|(Hr' & _)]; [|lia].
+  split; [exact (fq_end _ _ _ _ Hq (fun x X => X))|].
+  split; [exact (reproc_start_frees _ _ _ _ _ _ _ _ _ W Hpos Hmain Hnb Hhw Hkp Hkh E)|].
+  split; [|exact (post_reproc_start_blk _ _ _ _ _ _ _ _ E)].
+  repeat split; congruence.
+Qed.
+
+(* ---- the pid a handle holds, at any point of any history ---- *)
+Theorem history_pid ck ops p w p' w' :
+  WorldSpec2.wf w -> 0 <= w_cur w -> NB w -> (forall q, kp (w_cur w) (ck q)) -> fresh_handle p ->
+  run_hops ck p ops w = Ret p' w' ->
+  (h_status p' = STATUS_NOT_STARTED -> h_handle p' = PROCESS_INVALID) /\
+  (h_status p' <> STATUS_NOT_STARTED -> w_cur w < h_handle p' /\ 0 < h_handle p' /\ h_handle p' <> w_cur w').
+Proof.
+  intros W Hpos Hnb Hk Hf E.
+  destruct (HN_run_hops _ _ _ _ _ _ _ _ (HN_fresh p w W Hpos Hnb Hf) Hk E) as [H1 _].
+  pose proof H1 as ((Hq & _) & _ & _ & _ & Hns & Hpid). split.
+  - intros X. apply Hns, X.
+  - intros X. specialize (Hpid X). destruct Hq as (_ & C & _). rewrite C. lia.
 Qed.
